@@ -14,7 +14,7 @@ RULE = (
     "tries EVERY truncation offset of the plain file and of its gzip form (single- and multi-member); 'corrupt' every "
     "single-record corruption (delete/add one quality character, drop the '+' line, drop the header's '@', remove "
     "the sequence line, swap two lines) of every record; 'paired' mates missing at the end of R1 or R2, a renamed "
-    "mate, an odd interleaved file; each with one core and (sampled) 2-3 real worker processes and chunk sizes "
+    "mate, an odd interleaved file (FASTQ and FASTA); each with one core and (sampled) 2-3 real worker processes and chunk sizes "
     "placing the faulty record in the first/middle/last chunk; 'sim' (single-end) and 'simpair' (paired faults) run the faulty input under the schedule-owning "
     "simulator with drawn schedules; 'proc' repeats a sample as real operating-system processes; 'bigtrunc' truncates gzip files of 1500-6000 records (far beyond any read-ahead buffer) so that the reader meets the truncation after chunks were handed out. Oracle for the "
     "INPUT: independent strict 4-line FASTQ parser + zlib stream check + pair/name rules. Malformed => exit status != "
@@ -306,8 +306,8 @@ def check_corrupt(case, ctx):
 @st.composite
 def paired_case(draw):
     r1, r2 = draw(fastq_input(nmax=10, paired=True))
-    return {"sub": "paired", "r1": r1, "r2": r2, "cores": draw(st.sampled_from([1, 1, 2])),
-            "chunking": draw(st.sampled_from(["one", "many"]))}
+    return {"sub": "paired", "r1": r1, "r2": r2, "cores": draw(st.sampled_from([1, 1, 2, 3])),
+            "chunking": draw(st.sampled_from(["one", "many"])), "fasta": draw(st.integers(0, 2)) == 0}
 
 
 def check_paired(case, ctx):
@@ -336,13 +336,20 @@ def check_paired(case, ctx):
     faults.append(("interleaved file with an odd number of records", il[:-1], None, True))
     faults.append(("interleaved file, mates of pair 1 swapped with renamed id", il[:2] + [[("zz" + il[3][0]), il[3][1], il[3][2]]] + il[3:], None, True))
     cnt = 0
+    fasta = bool(case.get("fasta"))
+    w = cli.fasta if fasta else cli.fastq
+    if fasta:
+        ctx.label("format:fasta")
+        full1 = [(x[0], x[1], None) for x in full1]
+        full2 = [(x[0], x[1], None) for x in full2]
     for what, a, b, interleaved in faults:
         if interleaved:
-            args = base + ["--interleaved", "-o", "o.fastq", "i.fastq"]
-            files = {"i.fastq": cli.fastq(a)}
+            args = base + ["--interleaved", "-o", "o.fastq" if not fasta else "o.fasta", "i.fastq"]
+            files = {"i.fastq": w(a)}
         else:
-            args = base + ["-o", "o1.fastq", "-p", "o2.fastq", "i1.fastq", "i2.fastq"]
-            files = {"i1.fastq": cli.fastq(a), "i2.fastq": cli.fastq(b)}
+            args = base + ["-o", "o1.fastq" if not fasta else "o1.fasta", "-p", "o2.fastq" if not fasta else "o2.fasta",
+                           "i1.fastq", "i2.fastq"]
+            files = {"i1.fastq": w(a), "i2.fastq": w(b)}
         r = cli.run(args, files, timeout=60)
         cnt += 1
         if r.timed_out:
@@ -355,10 +362,11 @@ def check_paired(case, ctx):
         if r.exit == "crash":
             ctx.label("malformed->traceback")
         # prefix property of what was written
+        ext = "fasta" if fasta else "fastq"
         if interleaved:
-            outs = [("o.fastq", [x for p in zip(full1, full2) for x in p])]
+            outs = [(f"o.{ext}", [x for p in zip(full1, full2) for x in p])]
         else:
-            outs = [("o1.fastq", full1), ("o2.fastq", full2)]
+            outs = [(f"o1.{ext}", full1), (f"o2.{ext}", full2)]
         lens = []
         for nme, full in outs:
             raw = r.files.get(nme)
